@@ -339,6 +339,36 @@ func c08(c *Ctx) {
 	}
 
 	// ---- C08.3 rollback hygiene and append discipline --------------------------------------------------------------------
+	// ---- C08.3 recovery: logical sizes come from the commit log ---------------------------------------------------
+	// after a crash the payload / digest logs may be longer than what the commit log covers; Append writes at
+	// t.pLogSize / t.dLogSize, proofs read at canonical positions: the recovered sizes must be computed from the last
+	// commit-log entry, never from the physical size of the log itself
+	r = "C08.3/recovered-sizes-from-commit-log"
+	for _, name := range []string{"embedded/ahtree.OpenWith", "embedded/ahtree.(*AHtree).ResetSize"} {
+		if f := c.mustFn(r, name); f != nil {
+			ns := 0
+			for _, fld := range []string{"AHtree.pLogSize", "AHtree.dLogSize"} {
+				for i, in := range sites(f, storeTo(fld)) {
+					st := in.(*ssa.Store)
+					if k, ok := st.Val.(*ssa.Const); ok && k.Int64() == 0 {
+						continue
+					}
+					ns++
+					phys := dependsOn(st.Val, func(v ssa.Value) bool {
+						cl, ok := v.(*ssa.Call)
+						// the commit log is the source of truth: its own size is what the recovered sizes are computed from
+						return ok && cl.Call.IsInvoke() && cl.Call.Method.Name() == "Size" && !strings.Contains(desc(cl.Call.Value), "cLog")
+					})
+					c.check(!phys, r, fmt.Sprintf("%s:%s#%d", fnName(f), fld, i), c.pos(in.Pos()), "derived from the commit-log entry ("+desc(st.Val)+")",
+						"the logical size "+fld+" is taken from the physical size of the log: bytes written after the last committed entry would be treated as part of the tree")
+				}
+			}
+			if ns == 0 && name == "embedded/ahtree.OpenWith" {
+				c.undecided(r, name+":sizes", "no non-zero store to pLogSize/dLogSize found")
+			}
+		}
+	}
+
 	r = "C08.3/rollback-hygiene"
 	if f := c.mustFn(r, ahT+"ResetSize"); f != nil {
 		for _, sz := range []string{"cLogSize", "pLogSize", "dLogSize"} {
